@@ -100,7 +100,8 @@ CloseBody(c) == [c EXCEPT !.open = 0]
 ASSUME TickWhile \subseteq Waiting
 TickBy(n) == /\ n > 0 /\ clock' = clock + n
              /\ UNCHANGED <<cfg, chal, toks, refresh, inited, lock, calls, ncalls, issued, rtOwner, lastSent>>
-Tick == /\ clock < MaxClock /\ \A s \in Slots : calls[s].pc \in TickWhile
+Tick == /\ clock < MaxClock /\ ncalls > 0     \* (time before the first call is immaterial)
+        /\ \A s \in Slots : calls[s].pc \in TickWhile
         /\ TickBy(1)
 
 \* RoundTrip entered: the request is cloned; nothing of the caller's request is touched later
@@ -110,7 +111,7 @@ Begin(s, h, req, want, body) ==
              open |-> IF body = "none" THEN 0 ELSE 1,   \* request bodies handed out and not yet closed
              callerAuth |-> NoCred,                     \* Authorization on the CALLER's request object
              attempts |-> 0, auth |-> NoCred, acquired |-> FALSE, fromCache |-> FALSE, hadCover |-> FALSE,
-             mode |-> "-", ask |-> {}, narrow |-> {}, narrowed |-> FALSE, method |-> "-", tokReqs |-> 0,
+             mode |-> "-", ask |-> {}, narrow |-> {}, narrowed |-> FALSE, method |-> "-",
              rresp |-> NoRResp, tresp |-> NoTResp, raw2 |-> 0, status |-> 0])
   /\ ncalls' = ncalls + 1
   /\ UNCHANGED <<cfg, clock, chal, toks, refresh, inited, lock, issued, rtOwner, lastSent>>
@@ -171,7 +172,7 @@ Decide(s) ==
 
 \* how a call that stops inside a token acquisition ends: before the first attempt the body is
 \* still ours to close; the error is surfaced (status -1)
-AcqFail(c) == Finish(IF c.mode = "pre" THEN CloseBody(c) ELSE c, -1)
+AcqFail(c) == Finish([(IF c.mode = "pre" THEN CloseBody(c) ELSE c) EXCEPT !.ask = {}, !.narrow = {}, !.narrowed = FALSE, !.method = "-", !.tresp = NoTResp], -1)
 
 \* acquireToken with a challenge that names no usable realm: nothing can be sent
 AcquireNoRealm(s) ==
@@ -194,7 +195,7 @@ TokSend(s) ==
                      scope |-> c.ask, mode |-> c.mode, narrowed |-> c.narrowed, req |-> c.req, want |-> c.want,
                      fromCache |-> FALSE, acquired |-> FALSE,
                      text |-> IF c.mode = "chal" /\ c.ask = chal[h].scope THEN "chal" ELSE "any"]
-     /\ Set(s, [c EXCEPT !.pc = "tokwait", !.method = IF post THEN "POST" ELSE "GET", !.tokReqs = @ + 1])
+     /\ Set(s, [c EXCEPT !.pc = "tokwait", !.method = IF post THEN "POST" ELSE "GET"])
   /\ UNCHANGED <<cfg, clock, chal, toks, refresh, inited, lock, ncalls, issued, rtOwner>>
 
 \* the token server answers (environment)
@@ -221,7 +222,8 @@ Store(s) ==
      /\ refresh' = IF r.rt # 0 THEN [refresh EXCEPT ![h] = r.rt] ELSE refresh
      /\ lock' = [lock EXCEPT ![h] = 0]
      /\ Set(s, [c EXCEPT !.pc = IF c.mode = "pre" THEN "send1" ELSE "send2", !.auth = BearerCred(r.id),
-                         !.acquired = (c.mode = "chal"), !.fromCache = FALSE])
+                         !.acquired = (c.mode = "chal"), !.fromCache = FALSE,
+                         !.ask = {}, !.narrow = {}, !.narrowed = FALSE, !.method = "-", !.tresp = NoTResp])
   /\ UNCHANGED <<cfg, clock, chal, inited, ncalls, issued, rtOwner, lastSent>>
 
 \* the OAuth2 POST endpoint does not exist: fall back to GET
@@ -255,7 +257,7 @@ Send(s) ==
   /\ calls[s].pc \in {"send1", "send2"}
   /\ LET c == calls[s] IN
      /\ lastSent' = [k |-> "reg", s |-> s, at |-> clock, to |-> c.h, for |-> c.h, ch |-> chal[c.h], attempt |-> c.attempts + 1,
-                     cred |-> c.auth, scope |-> {}, mode |-> c.mode, narrowed |-> c.narrowed, req |-> c.req, want |-> c.want,
+                     cred |-> c.auth, scope |-> {}, mode |-> "-", narrowed |-> FALSE, req |-> c.req, want |-> c.want,
                      fromCache |-> c.fromCache, acquired |-> c.acquired, text |-> "any"]
      /\ Set(s, [c EXCEPT !.pc = IF c.pc = "send1" THEN "resp1wait" ELSE "resp2wait", !.attempts = @ + 1, !.open = 0])
   /\ UNCHANGED <<cfg, clock, chal, toks, refresh, inited, lock, ncalls, issued, rtOwner>>
@@ -271,7 +273,7 @@ PassThrough(s) ==
   /\ calls[s].pc = "got1"
   /\ LET c == calls[s] IN
      /\ c.rresp.status # 401 \/ Usable(c.rresp.offers) = {}
-     /\ Set(s, Finish(c, c.rresp.status))
+     /\ Set(s, Finish([c EXCEPT !.rresp = NoRResp], c.rresp.status))
   /\ UNCHANGED <<cfg, clock, chal, toks, refresh, inited, lock, ncalls, issued, rtOwner, lastSent>>
 
 \* setAuthorizationFromChallenge: the challenge becomes the host's challenge in force, then
@@ -284,11 +286,11 @@ OnChallenge(s) ==
           /\ chal' = [chal EXCEPT ![h] = o]
           /\ IF o.scheme = "bearer" THEN
                /\ Set(s, [c EXCEPT !.pc = "tok", !.mode = "chal", !.ask = o.scope \cup c.want \cup c.req,
-                                   !.narrow = o.scope, !.narrowed = FALSE])
+                                   !.narrow = o.scope, !.narrowed = FALSE, !.rresp = NoRResp])
                /\ lock' = [lock EXCEPT ![h] = s]
              ELSE IF HasBasic(h) THEN
-               Set(s, [c EXCEPT !.pc = "send2", !.auth = BasicCred(h), !.fromCache = FALSE]) /\ UNCHANGED lock
-             ELSE Set(s, Finish(c, 401)) /\ UNCHANGED lock
+               Set(s, [c EXCEPT !.pc = "send2", !.auth = BasicCred(h), !.fromCache = FALSE, !.rresp = NoRResp]) /\ UNCHANGED lock
+             ELSE Set(s, Finish([c EXCEPT !.rresp = NoRResp], 401)) /\ UNCHANGED lock
   /\ UNCHANGED <<cfg, clock, toks, refresh, inited, ncalls, issued, rtOwner, lastSent>>
 
 Resp2(s, status) ==
@@ -342,10 +344,10 @@ CachedCovers == (IsReg /\ m.fromCache) => (m.cred.k \in {"bearer", "static"} /\ 
 FreshCoversChallenge == (IsReg /\ m.acquired) =>
   (m.cred.k = "bearer" /\ m.ch.scheme = "bearer" /\ Contains(issued[m.cred.id].scope, m.ch.scope) /\ issued[m.cred.id].realm = m.ch.realm)
 \* with a covering token that has more than the safety margin left, the first attempt carries a
-\* cached token and no token request is made before it
+\* cached token and no token acquisition was started before it (mode "-")
 NoNeedlessAcquire == \A s \in Slots :
   (calls[s].pc \in {"send1", "resp1wait", "got1"} /\ calls[s].hadCover) =>
-     (calls[s].tokReqs = 0 /\ calls[s].fromCache /\ calls[s].auth.k \in {"bearer", "static"})
+     (calls[s].mode = "-" /\ calls[s].fromCache /\ calls[s].auth.k \in {"bearer", "static"})
 \* a token request asks for challenge + required + desired scope (the narrow retry: the challenge's
 \* scope alone, or the required scope alone) and keeps the challenge's text when nothing was added
 TokenRequestScope == IsTok =>
